@@ -445,6 +445,23 @@ where
     }
     // paseto-json's own claims type and Json<T> footers: every field independently present / absent, nbf and iat apart, strings that
     // need escapes, footers with brackets inside strings and real nesting
+    // a footer type without fields (zero-sized) whose encoding is a fixed non-empty document: written, and read back
+    {
+        let key: Key<B::V, P::SealingKey> = key_from_bytes(&km.seal).unwrap();
+        let ukey: Key<B::V, P> = key_from_bytes(&km.unseal).unwrap();
+        let m = rng.bytes(21);
+        let r = catch_unwind(AssertUnwindSafe(|| {
+            let text = UnsealedToken::<B::V, P, Raw>::new(Raw(m.clone())).with_footer(crate::payload::FixedFooter).seal(&key, &[]).map(|t| t.to_string()).ok()?;
+            let wire_footer = split_token(&text, header::<B, P>().len()).map(|x| x.1)?;
+            let back = SealedToken::<B::V, P, Raw, crate::payload::FixedFooter>::from_str(&text).and_then(|t| t.unseal(&ukey, &[], &paseto_core::validation::NoValidation::dangerous_no_validation())).map(|u| u.claims.0);
+            Some((wire_footer, back.unwrap_or_else(|e| format!("<{}>", errname(&e)).into_bytes())))
+        }));
+        let (wf, back) = r.ok().flatten().unwrap_or((b"<panic or seal error>".to_vec(), b"<panic or seal error>".to_vec()));
+        let (l, rr) = (rec.intern(&wf), rec.intern(crate::payload::FIXED_FOOTER));
+        rec.emit(json!({"ev":"Law","name":"fieldless-footer-type-is-written","lhs":l,"rhs":rr,"be":B::NAME,"purpose":purpose}));
+        let (l, rr) = (rec.intern(&back), rec.intern(&m));
+        rec.emit(json!({"ev":"Law","name":"fieldless-footer-token-round-trips","lhs":l,"rhs":rr,"be":B::NAME,"purpose":purpose}));
+    }
     rec.emit(json!({"ev":"Reset","scenario":format!("rt-registered-{}-{}", B::NAME, purpose)}));
     learn(rec, purpose, km);
     {
